@@ -3,6 +3,20 @@ pkg = test package under harness/, level = evidence level, jobs[tier] = list of
 {part, shards, checks (rapid cases per shard), journal, timeout, scale}."""
 
 CHECKS = {
+    'C14': dict(pkg='c14', level='exploration',
+        technique='differential property testing: rapid-generated error trees (all user-visible constructors, wrapping, joining, arbitrary int32 codes) returned by a handler of a real Server and observed by a real Client in a bubble, against an independent re-implementation of the documented classification; algebraic laws of Code.Err and Error.WithData',
+        level_text='Generated error values (and unmarshalable results) travel handler -> Server -> wire -> Client; the client-side error must have the ErrorCode of the handler error, *Error code/message/data must arrive unchanged, context errors must surface as the sentinel values, an unmarshalable result must become an error response (a missing response is a detected bubble deadlock). ErrorCode(c.Err()) == c and the WithData laws are checked for arbitrary int32 codes. Exploration.',
+        level_note='Trusts the reference classification in harness/c14 (written from the ErrorCode documentation) and refjson.Equal; a non-*Error ErrCoder reporting NoError is dont-care.',
+        jobs=dict(
+        quick=[dict(part='transport', shards=3, checks=3000), dict(part='laws', shards=1, checks=20000)],
+        thorough=[dict(part='transport', shards=12, checks=80000, timeout=3000), dict(part='laws', shards=2, checks=500000, timeout=3000)])),
+    'C13': dict(pkg='c13', level='exploration',
+        technique='round-trip property testing (emit through every emitter of the library -> captured bytes -> independent decoder and the library parser) over rapid-generated hostile method names / ids / values, and differential testing of ParseRequests against the reference classifier over the exhaustive field-variant product and generated inputs',
+        level_text='Every emitter (Client.Call/Notify/Batch, server responses and errors, Server.Notify/Callback, the client callback reply, bridge bodies) is driven with generated method names, ids and values (decoded or pre-encoded with white space); captured bytes must be one-line valid UTF-8 JSON with jsonrpc 2.0 that parses back to the same id, method and JSON-equal payload under an independent decoder and under ParseRequests. ParseRequests is compared with the reference classifier on the complete field-variant product and on generated/mutated inputs. Exploration; exhaustive for the product.',
+        level_note='Trusts harness/ref/refjson, refrpc and the numeric JSON equality in the harness; method names are valid UTF-8 by construction (the property quantifies over those).',
+        jobs=dict(
+        quick=[dict(part='emit', shards=3, checks=4000), dict(part='parseproduct', shards=2), dict(part='parserandom', shards=2, checks=10000)],
+        thorough=[dict(part='emit', shards=10, checks=100000, timeout=3000), dict(part='parseproduct', shards=2), dict(part='parserandom', shards=10, checks=300000, timeout=3000)])),
     'C10': dict(pkg='c10', level='exploration',
         technique='property-based testing with an instrumented channel wrapper (entry/exit counters for Send/Recv/Close, yields inside the operations) under the union of the server- and client-side scenario generators, with equal pinned hook delays so that would-be concurrent senders become runnable at the same instant; every record passed to Send validated by an independent JSON-RPC message validator',
         level_text='All server-side workloads (concurrent calls, batches, pushes, callbacks, cancellations, stop/close, restarts) and client-side workloads (concurrent calls, batches, callback replies, Close, faults) run on channels wrapped by an overlap detector: never two Sends, never two Recvs, never Send overlapping Close, Close exactly once per Start/NewClient, every record a whole JSON-RPC message. Exploration.',
